@@ -71,3 +71,19 @@ def classify_c04(cfg, fail, w_in, w_out, fin):
       return "KF-C04-a" if (lo is not None and b < lo) else None
     return "KF-C04-a" if (hi is not None and b > hi - 1e-3 - 1e-6 * scale) else None
   return None
+
+
+def classify_c05(x32, degenerate):
+  """KF-C05-a: softmax-derived (learned) keypoints: a segment whose length is
+  below the float32 resolution of its keypoint coordinate (kp + length == kp in
+  float32, or length == 0).  For an input float32-equal to that keypoint
+  coordinate (x - kp)/length is unresolvable: NaN (0/0) or the segment's height
+  is dropped.  `degenerate` = (left keypoint coordinates, mask) exactly as the
+  layer computed them in float32."""
+  import numpy as np
+  k32, mask = degenerate
+  x32 = np.float32(x32)
+  for i in range(len(mask)):
+    if mask[i] and x32 == np.float32(k32[i]):
+      return "KF-C05-a"
+  return None
